@@ -47,3 +47,9 @@ claim("C30", "abstract interpretation of locale pack/unpack on symbolic strings 
       "set_language_and_region/get_language_and_region and their helpers are interpreted on symbolic locale strings of every shape (2/3-letter language x none/2-letter/2-digit/3-char region) "
       "and on symbolic configuration words of every reader form: get(set(s)) == s character by character, set(get(w)) == w bit by bit, decoded text = AOSP unpackLanguageOrRegion layout, default locale round-trips.",
       "Trusted: agstatic domains (Bits, Lin, StrV); character classes assumed for letters/digits; AOSP packed layout transcribed in the rule.")
+
+claim("C23", "code-point class partition + abstract interpretation of writer.string per class, output read with JLS lexical rules",
+      "The code-point domain is partitioned by every constant string() compares with; per class the loop body is interpreted with the code point symbolic "
+      "(bit provenance in the BMP, 0x10000+y above) and the appended pieces are lexed by Java's rules: raw/backslash/named/unicode escapes must denote exactly the UTF-16 code unit(s), "
+      "four nibble digits per \\u, none for LF/CR/quote/backslash, surrogate pair for supplementary characters. visit_constant must route through string().",
+      "Trusted: agstatic domains; JLS 3.3/3.10.5/3.10.6 rules and Python's unicode-escape for TAB/LF/CR as transcribed in the rule; string() is a per-character map.")
